@@ -289,7 +289,7 @@ def never_raise(chk: Check) -> None:
     # the pause future: every role that resolves it clears the attribute in the same region, so "is not None" means pending
     proc = prog.cls('processes.Process')
     roles = []
-    for f in proc.methods.values():
+    for f in proc.vmethods.values():
         for s in writer_sites(chk.ctx, f, [PAUSED]):
             roles.append(s)
     chk.floor('FUT-pause-future', len(roles), 1)
